@@ -143,7 +143,7 @@ EXTRA = {
     "C04": "Also: StatusFile (get_ppid_and_tgid transcribed) bound through substituted /proc/<pid>/status files (PPid 0 etc.); per-thread segment selectors; crash contexts whose own tid field names another thread.",
     "C10": "Also: short writes (the destination takes part of a write, then is full or keeps accepting) in the model (DirSection.WriteTail(n), WriteAll) and on real dumps; application regions with an unreadable tail; destinations beyond 4 GiB.",
     "C09": "Also: random histories with short writes and start offsets beyond 4 GiB / 2^40 (windowed recording destination); real dumps of a target with an empty environment and of one appended beyond 4 GiB.",
-    "C12": "Also at dump level (Trace_SanitizeDump): every word of every sanitised dumped stack against target memory and /proc/<pid>/maps, alone and under the size limit / skip rule / crash context.",
+    "C12": "Also: Apalache obligations over full 64-bit words (ap/SanitizeAp: small-integer test, pre-filter soundness). Also at dump level (Trace_SanitizeDump): every word of every sanitised dumped stack against target memory and /proc/<pid>/maps, alone and under the size limit / skip rule / crash context.",
     "C17": "Also: MemReaderHist (one reader serving a history of reads, HistoryIndependent) and per-reader read histories on all strategies; all-ones words in the readable extent.",
     "C19": "Also: histories in which a dump fails part-way (unreadable application region, destination failure at call k) before the next one (DumpSeq.Abort), and options that must persist (caller entry address, caller mappings); the caller's settings snapshotted around every dump (none may change), stack sizes under one configuration within a history, the size limit as a writer field (DumpSeq.limit).",
     "C11": "Also: every copied file (/proc/cpuinfo, /etc/*-release, cmdline, environ, auxv, limits) made unreadable for real in a private mount namespace, singly and in combinations (SoftErrors.unreadable); a link_map name that is not UTF-8.",
